@@ -857,7 +857,7 @@ class Plucker(SMUserList):
             # P = -(np.cross(line.v, plane.n) + plane.d * line.w) / den
             p = (np.cross(self.v, plane.n) - plane.d * self.w) / den
             
-            t = np.dot( self.pp - p, plane.n)
+            t = np.dot(p - self.pp, self.uw)  # p = self.point(t)
             return namedtuple('intersect_plane', 'p lam')(p, t)
         else:
             return None
